@@ -10,7 +10,18 @@ ASSUMPTIONS = ['file locations are identified by unique content markers rather t
 WITH_MODEL = True
 
 SEGS = ['..', '.', '', 'sub', 'sib0', 'lvl0', 'root', '%2e%2e', '%2E%2E', '..%2f', '....', '...', '.. ', '..;', '..\\', 'sub/..', '%2e.', '.%2e',
-        'secret.txt', 'secret.html', 'index.html', 'secret', '..\x00', '\xc0\xae\xc0\xae', '．．']
+        'secret.txt', 'secret.html', 'index.html', 'secret', '..\x00', '\xc0\xae\xc0\xae', '．．',
+        '..%2F', '..%2F..', '%2F..', '..%2F..%2F', '%2F', '%2f', '..%5C', '..%5c', '%2E%2E%2F', '%2e%2e%2f', '..%252F', '..%2Fsecret.txt', '..%2Fsecret', '..%2Fsib0']
+
+def pct(rng, t):
+    """percent-encode some of the characters after the leading slash, upper- or lower-case hex (a decoder applied after the guard)"""
+    out = t[:1]
+    for ch in t[1:]:
+        if ord(ch) < 128 and ch not in '%?#' and rng.chance(1, 3 if ch in './' else 8):
+            h = '%02x' % ord(ch)
+            out += '%' + (h.upper() if rng.chance(1, 2) else h)
+        else: out += ch
+    return out
 
 def gen_target(rng, tree):
     da = tree.cwd.count(b'/')
@@ -31,6 +42,7 @@ def gen_target(rng, tree):
         t = '/' + '/'.join(rng.choice(['..', 'sub', '.']) for _ in range(rng.range(1, 6))) + rng.choice(['', '/', '/secret.txt', '?a=..', '#..'])
     if rng.chance(1, 8): t = t.replace('/', '//', 1)
     if rng.chance(1, 10): t = t + '/'
+    if rng.chance(1, 5): t = pct(rng, t)
     return t
 
 def build(rng, tier):
@@ -54,7 +66,9 @@ def build(rng, tier):
                             t = '/' + dd + '../' * (depth + extra - 1) + '../' * 0 + tail
                             cases.append(K.mk(tree, 'GET', t, rng.choice([[], [('Range', 'bytes=0-')]]), entry=rng.choice(['proc', 'preq']), kind='traversal'))
                             cases.append(K.mk(tree, 'GET', '/' + dd + '../' * (depth + extra) + tail, entry=rng.choice(['proc', 'preq']), kind='traversal'))
-        for t in ['/../secret.txt', '/sub/../../secret.txt', '/..', '/../', '/../index.html', '/../sib0/secret.html', '/..%2fsecret.txt', '/%2e%2e/secret.txt']:
+        for t in ['/../secret.txt', '/sub/../../secret.txt', '/..', '/../', '/../index.html', '/../sib0/secret.html', '/..%2fsecret.txt', '/%2e%2e/secret.txt',
+                  '/..%2Fsecret.txt', '/..%2F..%2Fsecret.txt', '/sub%2F..%2F..%2Fsecret.txt', '/..%2Fsecret', '/..%2Fsib0', '/..%2Fsib0%2Fsecret.html', '/%2E%2E%2Fsecret.txt',
+                  '/..%5Csecret.txt', '/..%5csecret.txt', '/%2E%2E/secret.txt', '/.%2E/secret.txt', '/%2e./secret.txt']:
             for entry in ('proc', 'preq'):
                 cases.append(K.mk(tree, 'GET', t, entry=entry, kind='corpus'))
         batches.append((tree, cases))
@@ -94,7 +108,7 @@ def run(res, tier, seed):
     results = K.run_batches(batches, with_model=WITH_MODEL)
     judge(res, results)
     res.rule = ('trees with the root nested 0..4 levels deep and a uniquely marked secret at every ancestor level and in sibling directories; targets '
-                'from the segment grammar {.., ., empty, names, %2e%2e, ..%2f, ...., overlong/fullwidth dots, NUL} with repeated/trailing slashes, '
+                'from the segment grammar {.., ., empty, names, %2e%2e, ..%2f, ..%2F, %5C, ...., overlong/fullwidth dots, NUL} with repeated/trailing slashes, one in five with random characters percent-encoded in upper or lower hex, '
                 'query/fragment containing .., no leading slash, authority-like prefixes, backslashes; x Range in {none, 0-, multi, suffix} x both '
                 'entry points x GET/HEAD/OPTIONS/POST; distinct = (entry, request)')
     for c, r, il, ml in results[:3]:
